@@ -20,7 +20,7 @@ RULE = ("(a) every command class is constructed over comm 0..255, counts 1..125,
         "command class, argument class) tuples + distinct transaction ids seen")
 ASSUMPTIONS = ["the decoders in refcodec follow the Modbus specification (big-endian fields, CRC lo-hi, MBAP length = bytes "
                "that follow) and the AA55 framing stated in the property"]
-MUST = ["named_single_reads", "dt_fallback_model_query", "tcp_connect_failures_between_requests", "tcp_session_dropped_between_requests", "contract_eval_create_modbus_rtu_request", "contract_eval_create_modbus_tcp_request",
+MUST = ["overlapping_polls_txids", "rmw_with_padded_read_answers", "named_single_reads", "dt_fallback_model_query", "tcp_connect_failures_between_requests", "tcp_session_dropped_between_requests", "contract_eval_create_modbus_rtu_request", "contract_eval_create_modbus_tcp_request",
         "contract_eval_create_modbus_rtu_multi_request", "contract_eval_create_modbus_tcp_multi_request",
         "txid_wraps", "negative_values", "aa55_negative_values", "wire_ops_matched", "wire_retransmissions",
         "classes_constructed", "protocol_object_commands"]
@@ -355,6 +355,69 @@ def named_reads(spec, part):
         part.see(f"named|{fam}|{port}|{comm}")
 
 
+def concurrent_and_padded(spec, part):
+    """(a) two tasks poll one Modbus/TCP inverter object at the same time (shared command objects): consecutive transmissions still carry
+    different transaction ids; (b) a one-byte setting is written (read-modify-write) while the firmware appends stray bytes to its read
+    answers: the write on the wire is still the canonical single-register write of that register"""
+    import asyncio
+    from .. import models
+    g = env.goodwe()
+    for ka in (False, True):
+        sim = models.family_sim("ET")
+        sim.delay = 0.05
+
+        async def flow(loop):
+            inv = g.ET("inv0", 502, 0, 1, 1)
+            inv.set_keep_alive(ka)
+            await inv.read_device_info()
+            await asyncio.gather(inv.read_runtime_data(), inv.read_runtime_data(), inv.read_runtime_data())
+        run = engine.run_custom({("inv0", 502): sim}, flow, vtime_cap=600, tx_cap=600)
+        part.evaluations += 1
+        case = {"concpad": True}
+        if run.stop or run.error is not None:
+            bad(part, "tcp", "named-reads-failed", f"three overlapping polls on one Modbus/TCP object (keep_alive={ka}): {run.stop or repr(run.error)}", case)
+            continue
+        last = None
+        for t, n, req, raw in sim.log:
+            if last is not None and req["txid"] == last:
+                bad(part, "tcp", "transaction-id-repeats", f"overlapping polls on one object (keep_alive={ka}): transmission #{n} repeats transaction id {last}", case)
+                break
+            last = req["txid"]
+        for b in sim.bad:
+            bad(part, "tcp", "undecodable-request", f"overlapping polls: {b[1]}", case)
+        part.count("overlapping_polls_txids")
+    for port in (8899, 502):
+        for stray in (b"\x00", b"\xab\xcd", b"\xff\xff\xff"):
+            sim = models.family_sim("ET")
+            sim.stray = stray
+            st = {}
+
+            async def flow(loop):
+                inv = g.ET("inv0", port, 0, 1, 0)
+                await inv.read_device_info()
+                sw = next(x for x in inv.settings() if x.id_ == "eco_mode_1_switch")
+                st["reg"] = sw.offset
+                sim.regs[sw.offset] = 0x007F
+                st["n0"] = len(sim.log)
+                await inv.write_setting("eco_mode_1_switch", -1)
+            run = engine.run_custom({("inv0", port): sim}, flow, vtime_cap=600, tx_cap=600)
+            part.evaluations += 1
+            framing = "tcp" if port == 502 else "rtu"
+            case = {"concpad": True}
+            if run.stop or run.error is not None:
+                bad(part, framing, "named-reads-failed", f"write of a one-byte setting with read answers padded by {stray.hex()}: {run.stop or repr(run.error)}", case)
+                continue
+            for b in sim.bad:
+                bad(part, framing, "undecodable-request", f"read answers padded by {stray.hex()}: transmission #{b[0]} cannot be decoded: {b[1]} ({b[2].hex()[:60]})", case)
+            ops = [(r[2]["kind"], r[2]["reg"], r[2].get("count"), r[2].get("value")) for r in sim.log[st["n0"]:]]
+            want = [("read", st["reg"], 1, None), ("write", st["reg"], None, -129)]        # 0xFF7F as a signed word
+            if ops != want and not sim.bad:
+                bad(part, framing, "wire-operation-mismatch",
+                    f"write_setting('eco_mode_1_switch', -1) with read answers padded by {stray.hex()}: on the wire {ops}, expected {want}", case)
+            else:
+                part.count("rmw_with_padded_read_answers")
+
+
 def plan(tier, seed):
     specs = []
     step = 8192
@@ -369,6 +432,7 @@ def plan(tier, seed):
     specs.append({"mode": "ctor", "what": "grid", "seed": f"{seed}:C03:g"})
     specs.append({"mode": "txid", "n": 200000 if tier == "quick" else 400000})
     specs.append({"mode": "named", "seed": f"{seed}:C03:named"})
+    specs.append({"mode": "concpad"})
     for i in range(4 if tier == "quick" else 32):
         specs.append({"mode": "wire", "seed": f"{seed}:C03:w:{i}", "n": 250 if tier == "quick" else 8000})
     return specs
@@ -383,6 +447,8 @@ def run_shard(spec):
         txid_history(spec, part)
     elif spec["mode"] == "named":
         named_reads(spec, part)
+    elif spec["mode"] == "concpad":
+        concurrent_and_padded(spec, part)
     else:
         wire_ops(spec, part)
     if part.evaluations and not part.samples:
@@ -394,7 +460,9 @@ def replay(case):
     g = env.goodwe()
     part = Part()
     contracts.install_request_contracts(contracts.Sink(part))
-    if case.get("named"):
+    if case.get("concpad"):
+        concurrent_and_padded({}, part)
+    elif case.get("named"):
         named_reads({"seed": case["seed"]}, part)
     elif case.get("txid"):
         txid_history({"n": case["n"] + 10}, part)
